@@ -275,6 +275,38 @@ def summarise_predicate(cx, body, depth):
     return g if set(g) == set(V3) else None
 
 
+def recv_by_evaluation(body, cfg, du, parse_call, cont_assigns, hb_r, hb_w):
+    """True when, for each of the three values of reply.continues, every feasible path from the parsed reply to a return stores
+    exactly `value == Some(true)` into self.continues and hands reader and writer back exactly when the reply is final"""
+    from vlib import absval
+    from vlib.cfg import enumerate_paths
+    if parse_call.dest is None or parse_call.dest.p or parse_call.target is None: return False
+    vals = {"N": ("var", 0, ()), "F": ("var", 1, (("int", 0),)), "T": ("var", 1, (("int", 1),))}
+    ca_bbs = {}
+    for st in cont_assigns: ca_bbs.setdefault(st.bb, []).append(st)
+    for name, v in vals.items():
+        rv = absval.struct_value("Reply", {"continues": v})
+        if rv is None: return False
+        env0 = {parse_call.dest.l: ("var", 0, (rv,))}
+        hit = [False]
+        paths = enumerate_paths(cfg, parse_call.target, lambda blk: blk.term.kind == "return", du=du, env0=env0, on_limit=lambda: hit.__setitem__(0, True))
+        if hit[0]: return False
+        n = 0
+        for p in paths:
+            if p[-1] < 0 or body.blocks[p[-1]].term.kind != "return": continue
+            n += 1
+            stored = None
+            for kind, b, obj, store in absval.walk(body, du, cfg, p, env0=env0):
+                if kind == "stmt" and obj in ca_bbs.get(b, []) and obj.ops:
+                    stored = absval.operand_value(store, obj.ops[0]) or "unknown"
+            if stored is None or stored == "unknown" or stored[0] != "int" or bool(stored[1]) != (name == "T"): return False
+            hr = any(st.bb in p for st in hb_r); hw = any(st.bb in p for st in hb_w)
+            if name == "T" and (hr or hw): return False
+            if name != "T" and not (hr and hw): return False
+        if n == 0: return False
+    return True
+
+
 def check_recv_protocol(cx, rule, prefix):
     """iterator/slot protocol of recv(): used as C05.R2 and C07.R3"""
     f = Fn(cx, MC + "recv")
@@ -319,6 +351,12 @@ def check_recv_protocol(cx, rule, prefix):
             g = ev.value_fn(last.ops[0]) if last.ops else None
             if g is None: bad_true.append((p, "set to a value not derived from reply.continues"))
             elif any(g.get(v) != (v == "T") for v in S): bad_true.append((p, "computed value is %s for %s" % (g, "/".join(NAMES[v] for v in sorted(S) if g.get(v) != (v == "T")))))
+    if no_update or bad_true or bad_hand or not nmore or not nfinal:
+        # second opinion by evaluation: run the paths behind the parse with the reply's `continues` member seeded as absent /
+        # Some(false) / Some(true) and read off what is stored into self.continues and whether the streams go back
+        if recv_by_evaluation(body, cfg, du, fs[0], ca, hb_r, hb_w):
+            no_update = []; bad_true = []; bad_hand = []; nmore = nmore or 1; nfinal = nfinal or 1
+            cx.notes.append("%s: recv() decided by abstract evaluation over reply.continues in {absent, Some(false), Some(true)}" % rule)
     cx.check(not no_update and nmore and nfinal, rule, prefix + ":recv:continues-updated-on-every-exit", site,
              ("%d path(s) from a parsed reply to a return never update self.continues (e.g. the error return, blocks %s): the iterator keeps polling (or stops) on stale state" % (len(no_update), no_update[0][:18]))
              if no_update else "recv() has %d return path(s) that are taken only for Some(true) and %d taken only for a final reply: both outcomes must be distinguished (Some(false) and absent are final, only Some(true) continues)" % (nmore, nfinal),
